@@ -20,7 +20,7 @@ def lcm(a, b):
     return a * b // math.gcd(a, b)
 
 
-HOWS = ("ctor", "nogroup", "pandas", "pandas-nogroup", "reorder", "foreign-spline", "chromosome-removed", "spline-shared")
+HOWS = ("ctor", "nogroup", "pandas", "pandas-nogroup", "reorder", "foreign-spline", "chromosome-removed", "spline-shared", "relabelled")
 
 
 def build_map(clsname, rows, how="ctor", rng=None):
@@ -43,6 +43,8 @@ def build_map(clsname, rows, how="ctor", rng=None):
         other = StandardGeneticMap(vrnt_chrgrp=ch, vrnt_phypos=ph, vrnt_genpos=ge * 3.0 + 0.5) if std else \
             ExtendedGeneticMap(vrnt_chrgrp=ch, vrnt_phypos=ph, vrnt_stop=ph + 1, vrnt_genpos=ge * 3.0 + 0.5)
         kw["spline"] = dict(other.spline)
+    if how == "relabelled":
+        ch = ch + 20          # built under provisional chromosome labels, corrected below through the vrnt_chrgrp property
     if how == "chromosome-removed":
         # the map once held another chromosome (label 11, which the queries ask about): all its markers were removed (remove with
         # positions, or select with a mask) and the spline was built again -- the map now IS the map of the remaining rows
@@ -57,6 +59,9 @@ def build_map(clsname, rows, how="ctor", rng=None):
             m.remove(at)
         else:
             m.select(np.asarray(m.vrnt_chrgrp) != 11)
+        m.build_spline()
+    if how == "relabelled":
+        m.vrnt_chrgrp = np.asarray(m.vrnt_chrgrp) - 20
         m.build_spline()
     if how == "spline-shared":
         # a second map is built on this map's spline dictionary (the optional argument; it builds its own splines at once):
@@ -206,7 +211,7 @@ def run(ctx):
         allc.append(map_case(len(allc) + 1, rng.choice(["StandardGeneticMap", "ExtendedGeneticMap"]), rows, qs, "ctor", rng))
         # the same rows through the other ways of building a map (no grouping at construction, data-frame import,
         # in-place reordering followed by a new spline)
-        how = HOWS[1 + (len(allc) // 2) % 7]
+        how = HOWS[1 + (len(allc) // 2) % 8]
         cc = map_case(len(allc) + 1, "StandardGeneticMap" if how.startswith("pandas") else rng.choice(["StandardGeneticMap", "ExtendedGeneticMap"]),
                       rows, qs, how, rng)
         cc["how"] = how
